@@ -31,6 +31,15 @@ class _NoCtx(object):
         return False
 
 
+def _dt(dtype):
+    """the builtins overlay replaces `float`/`int` in the repo modules; map them back when used as dtypes"""
+    if dtype is vc_float:
+        return float
+    if dtype is vc_int:
+        return int
+    return dtype
+
+
 class NpProxy(object):
     """stands in for the `np` global of a repo module"""
 
@@ -44,6 +53,9 @@ class NpProxy(object):
         v = getattr(np, k)
         if callable(v) and not isinstance(v, type):
             def fwd(*a, **kw):
+                a = tuple(_dt(x) for x in a)
+                if 'dtype' in kw:
+                    kw['dtype'] = _dt(kw['dtype'])
                 if any(is_sym(x) for x in a) or any(is_sym(x) for x in kw.values()):
                     kw.pop('dtype', None) if 'dtype' in kw and kw['dtype'] is not object else None
                     return wrap(v(*a, **kw))
@@ -53,23 +65,40 @@ class NpProxy(object):
         return v
 
     # ---- constructors
+    # symbolic_alloc: in verification runs freshly allocated float/complex arrays are object arrays (they will
+    # receive symbolic values); integer / bool allocations stay concrete.  Off in overlay-conformance runs.
+    symbolic_alloc = True
+
+    def _symalloc(self, dtype):
+        if dtype is object:
+            return True
+        if not self.symbolic_alloc:
+            return False
+        try:
+            return np.dtype(dtype).kind in 'fc'
+        except TypeError:
+            return False
+
     @_ov
     def zeros(self, shape, dtype=float, **kw):
-        if dtype is object:
-            a = np.empty(shape, dtype=object); a[...] = 0
+        dtype = _dt(dtype)
+        if self._symalloc(dtype):
+            a = np.empty(shape, dtype=object); a[...] = 0.0
             return a.view(SymArr)
         return np.zeros(shape, dtype, **kw)
 
     @_ov
     def ones(self, shape, dtype=float, **kw):
-        if dtype is object:
-            a = np.empty(shape, dtype=object); a[...] = 1
+        dtype = _dt(dtype)
+        if self._symalloc(dtype):
+            a = np.empty(shape, dtype=object); a[...] = 1.0
             return a.view(SymArr)
         return np.ones(shape, dtype, **kw)
 
     @_ov
     def empty(self, shape, dtype=float, **kw):
-        if dtype is object:
+        dtype = _dt(dtype)
+        if self._symalloc(dtype):
             a = np.empty(shape, dtype=object); a[...] = None
             return a.view(SymArr)
         return np.empty(shape, dtype, **kw)
@@ -79,14 +108,14 @@ class NpProxy(object):
         if is_sym(a):
             out = np.empty(np.shape(a), dtype=object); out[...] = 0
             return out.view(SymArr)
-        return np.zeros_like(a, dtype=dtype, **kw)
+        return np.zeros_like(a, dtype=_dt(dtype), **kw)
 
     @_ov
     def ones_like(self, a, dtype=None, **kw):
         if is_sym(a):
             out = np.empty(np.shape(a), dtype=object); out[...] = 1
             return out.view(SymArr)
-        return np.ones_like(a, dtype=dtype, **kw)
+        return np.ones_like(a, dtype=_dt(dtype), **kw)
 
     @_ov
     def full(self, shape, fill_value, **kw):
@@ -101,19 +130,19 @@ class NpProxy(object):
     def array(self, a, dtype=None, **kw):
         if is_sym(a):
             return SymArr(a).copy()
-        return np.array(a, dtype=dtype, **kw)
+        return np.array(a, dtype=_dt(dtype), **kw)
 
     @_ov
     def asarray(self, a, dtype=None, **kw):
         if is_sym(a):
             return a if isinstance(a, SymArr) else SymArr(a)
-        return np.asarray(a, dtype=dtype, **kw)
+        return np.asarray(a, dtype=_dt(dtype), **kw)
 
     @_ov
     def asanyarray(self, a, dtype=None, **kw):
         if is_sym(a):
             return a if isinstance(a, SymArr) else SymArr(a)
-        return np.asanyarray(a, dtype=dtype, **kw)
+        return np.asanyarray(a, dtype=_dt(dtype), **kw)
 
     @_ov
     def atleast_1d(self, *a):
@@ -177,6 +206,7 @@ class NpProxy(object):
 
     @_ov
     def result_type(self, *a):
+        a = tuple(_dt(v) for v in a)
         if any(is_sym(v) for v in a) or any(v is object for v in a):
             return object
         return np.result_type(*a)
